@@ -1744,7 +1744,10 @@ class Rsa(Base):
                         continue
                     o = em[pos]
                     for v in sorted(set([o ^ (1 << rng.randrange(8)), (o + 1) & 0xFF, 0x00, 0xFF]) - set([o])):
-                        craft("em-allbytes", em[:pos] + bytes([v]) + em[pos + 1:], msg, pre, [pos, v])
+                        em2 = em[:pos] + bytes([v]) + em[pos + 1:]
+                        # (PSS) an alteration that sets a bit at or above emBits is the "leftmost bits" class of its own
+                        top = self.pad == "pss" and (int.from_bytes(em2, "big") >> (nb - 1)) != 0
+                        craft("top-bits-set" if top else "em-allbytes", em2, msg, pre, [pos, v])
 
         # ---------------- every single-bit flip of one honest signature
         if heavy and last is not None:
